@@ -43,7 +43,7 @@ def build(cfg='asan'):
 SAN = {'asan': ['-fsanitize=address,undefined', '-fno-omit-frame-pointer'],
        'tsan': ['-fsanitize=thread'], 'plain': []}
 
-SIM_WRAPS = ['coap_ticks', 'epoll_wait', 'epoll_ctl', 'coap_socket_send', 'coap_socket_recv']
+SIM_WRAPS = ['coap_ticks', 'epoll_wait', 'epoll_ctl', 'coap_socket_send', 'coap_socket_recv', 'coap_socket_close']
 
 
 def link(name, srcs, wraps=(), cfg='asan', extra=(), cxx=False):
